@@ -153,6 +153,17 @@ LAST_STATEMENTS = [
     "d_['k'] = xs_.pop() + f_()", 'lambda: f_()', 'v_ = lambda: f_()', "v_ = f'{f_()}'", 'global G_', 'v_ = yield_ = 1',
 ]
 
+# programs that raise at run time, in every block shape the error can travel through
+ERROR_PROGRAMS = [
+    'x_ = 1\nraise ValueError("a")', 'x_ = [1][3]', 'for i_ in (1, 2):\n  y_ = 1 // (i_ - 2)', 'i_ = 0\nwhile True:\n  i_ += 1\n  {}["k"]',
+    'if 1:\n  pass\nelse:\n  pass\nz_ = int("q")', 'try:\n  x_ = {}["k"]\nexcept ValueError:\n  pass', 'try:\n  x_ = 1\n  y_ = [][0]\nfinally:\n  z_ = 2\n  w_ = 3',
+    'try:\n  x_ = 1 // 0\nexcept ZeroDivisionError:\n  y_ = 2\n  raise', 'try:\n  pass\nfinally:\n  x_ = 1\nraise KeyError("k")',
+    'def f_():\n  a_ = 1\n  return [][a_]\nx_ = 1\ny_ = f_()', 'def f_():\n  raise TypeError("t")\ndef g_():\n  return f_()\n\n\ng_()', 'class K_:\n  v_ = 1\n  w_ = {}["x"]',
+    'x_ = 1\ny_ = 2\n[][5]', 'x_ = 1\nd_ = {}\nd_["a"]["b"] = 1', 'x_ = 1\n(lambda: 1 // 0)()', 'with NULLCTX:\n  x_ = 1\n  y_ = int("z")',
+    'try:\n  try:\n    x_ = [][0]\n  finally:\n    y_ = 1\nexcept KeyError:\n  z_ = 2', 'match 1:\n  case 1:\n    x_ = None.attr', 'x_ = [i_ // (i_ - 1) for i_ in (2, 1)]',
+    'assert 1 == 2, "m"', 'import math\nmath.sqrt(-1)', 'x_ = 1\n\n\n# comment\ny_ = undefined_name_', 'try:\n  x_ = 1\nexcept* ValueError:\n  pass\nraise ExceptionGroup("g", [ValueError(1)])',
+]
+
 def last_statement_programs():
   out = []
   for st in LAST_STATEMENTS:
@@ -336,6 +347,19 @@ def oracle(code, arg_bits, scopes, flag_order):
     else:
       if not isinstance(err, errors.CodeError) or type(err.cause) is not type(plain_err):
         hits.append(('C19/granted-program-differs/error', 'plain execution raises %s but evaluate gives %r' % (type(plain_err).__name__, err)))
+      else:
+        # "carrying the original cause and position": the line of the program's own top-level frame in the traceback
+        want = None
+        tb = plain_err.__traceback__
+        while tb is not None:
+          if tb.tb_frame.f_code.co_filename == '':
+            want = tb.tb_lineno; break
+          tb = tb.tb_next
+        if want is not None and getattr(err, 'lineno', None) != want:
+          hits.append(('C19/granted-program-differs/error-position',
+                       'the %s is raised at line %s of the program, the CodeError reports line %s' % (type(plain_err).__name__, want, getattr(err, 'lineno', None))))
+        if err.cause is None or str(err.cause) != str(plain_err):
+          hits.append(('C19/granted-program-differs/error-cause', 'the CodeError does not carry the original cause: %r vs %r' % (err.cause, plain_err)))
   return hits
 
 def _norm(v):
@@ -651,6 +675,18 @@ def run(ctx):
       ctx.count(('last', src, bits, tuple(scs)), nontrivial=True, kind='last-statement',
                 sample=dict(kind='last-statement', code=src[len(LAST_PRELUDE):], permission_bits=bits) if nlast == 4 and bits == ALL and not scs else None)
   ctx.extra['last_statement_programs'] = nlast
+  # (H) run-time errors in every block shape: cause type, cause text and position must be those of plain execution
+  nerr = 0
+  for src in ERROR_PROGRAMS:
+    try:
+      compile(src, '', 'exec')
+    except SyntaxError:
+      continue
+    nerr += 1
+    for bits, scs in ((ALL, []), (None, [ALL])):
+      run_oracle(src, bits, scs)
+      ctx.count(('error', src, bits, tuple(scs)), nontrivial=True, kind='runtime-error')
+  ctx.extra['runtime_error_programs'] = nerr
   ctx.extra['oracle_evaluations'] = ocount
   # violation search when something is broken and nothing was hit yet: withhold each flag on each snippet under evaluate
   if ctx.is_broken() and not ctx.hits:
